@@ -15,7 +15,7 @@ def gen_case(rng, kind=None, rules=False):
     kind = kind or rng.choice(["ssa", "ssa", "dssa", "vssa"])
     ma_only = rng.random() < 0.5
     kinds = ("massaction",) if ma_only else ("massaction",) + tuple(G.HILL) + ("general",)
-    spec = G.gen_network(rng, kinds=kinds, nrx=(1, 4), nsp=(1, 4), allow_delay=(kind == "dssa"), max_order=3, integer_state=True, bounded=True,
+    spec = G.gen_network(rng, kinds=kinds, nrx=(1, 4), nsp=(1, 4), allow_delay=(kind == "dssa" or rng.random() < 0.25), max_order=3, integer_state=True, bounded=True,   # delayed parts in the other simulators too: applied at once (S3_C05)
                          general_pool=["kg*%s", "kg*%s/(1+%s)", "kg+%s*0", "kg*%s*%s"])
     # keep event counts moderate
     for k in list(spec["parameters"]):
@@ -37,6 +37,7 @@ def gen_case(rng, kind=None, rules=False):
     off = rng.choice([0.5 * dt, dt, 3 * dt]) if rng.random() < 0.25 else 0.0
     case = {"spec": spec, "kind": kind, "safe": safe, "times": [off + i * dt for i in range(n)], "seed": rng.randint(1, 2**31)}
     if kind == "vssa": case["volume"] = {"type": "base", "V0": rng.choice([0.25, 0.5, 1.0, 2.0, 4.0])}
+    if rng.random() < 0.3: case["warmup"] = True       # a throwaway run on the same model / interface first
     return case
 
 def gen_cases(seed, tier):
@@ -124,5 +125,5 @@ def stats(cases):
     from collections import Counter
     return {"simulators": dict(Counter(c["kind"] + ("+safe" if c["safe"] else "") for c in cases)),
             "kinds": dict(Counter(rx["type"] for c in cases for rx in c["spec"]["reactions"])),
-            "grids_starting_after_t0": sum(1 for c in cases if c["times"][0] > 0)}
+            "grids_starting_after_t0": sum(1 for c in cases if c["times"][0] > 0), "with_warmup_run": sum(1 for c in cases if c.get("warmup"))}
 def key(case): return json.dumps([case["spec"], case["kind"], case["safe"], case["times"], case["seed"]], sort_keys=True)
